@@ -23,7 +23,7 @@ RULE = ("not_adjacent: all labelled graphs <= 5 vertices and all grids h*w <= 12
 ASSUMPTIONS = ["z3 decides the posted aux-variable program correctly (SAT answers re-validated by M-SOLVE)",
                "definition of 'not segmenting': inactive vertices induce a connected subgraph (no inactive vertex counts as connected)"]
 REQUIRED = ["nadj.eval_patterns", "nadj.grid", "nadj.graph", "nseg.pointwise", "nseg.oracle.valid", "nseg.oracle.invalid",
-            "nseg.single_row_or_column", "nseg.accepted_set_solves", "nsegg.pointwise", "nadj.pointwise"]
+            "nseg.single_row_or_column", "nseg.accepted_set_solves", "nsegg.pointwise", "nadj.pointwise", "nseg.big_boards", "nseg.big_valid_chain_depth3plus"]
 
 
 def plan(tier):
@@ -54,6 +54,93 @@ def not_adjacent_eval(ctx, n, edges, post, desc):
             return
 
 
+def _free(cells, h, w, y, x):
+    return 0 <= y < h and 0 <= x < w and (y, x) not in cells and not any((y + dy, x + dx) in cells for dy, dx in ((1, 0), (-1, 0), (0, 1), (0, -1)))
+
+
+def big_patterns(rng, h, w, k, ora=None):
+    out = []
+    for i in range(k):
+        cells = set()
+        order = []
+        mode = i % 4
+        nchains = 1 if mode == 0 else rng.randint(1, 3)
+        for _ in range(nchains):
+            if rng.random() < 0.6:  # start on the border
+                y, x = rng.choice([(0, rng.randrange(w)), (h - 1, rng.randrange(w)), (rng.randrange(h), 0), (rng.randrange(h), w - 1)])
+            else:
+                y, x = rng.randrange(h), rng.randrange(w)
+            if not _free(cells, h, w, y, x):
+                continue
+            cells.add((y, x))
+            order.append((y, x))
+            touched = y in (0, h - 1) or x in (0, w - 1)
+            d = rng.choice([(1, 1), (1, -1), (-1, 1), (-1, -1)])
+            for _ in range(rng.randint(2, h + w)):
+                if rng.random() < 0.5:  # zigzag: flip one component
+                    d = (d[0], -d[1]) if rng.random() < 0.5 else (-d[0], d[1])
+                ny, nx = y + d[0], x + d[1]
+                if not _free(cells, h, w, ny, nx):
+                    d = (-d[0], d[1])
+                    ny, nx = y + d[0], x + d[1]
+                    if not _free(cells, h, w, ny, nx):
+                        break
+                onb = ny in (0, h - 1) or nx in (0, w - 1)
+                if mode != 3 and onb and touched and rng.random() < 0.8:
+                    continue  # mostly avoid reaching the border a second time (keeps the pattern non-segmenting); try another turn
+                touched = touched or onb
+                cells.add((ny, nx))
+                order.append((ny, nx))
+                y, x = ny, nx
+        pat = lambda: tuple(1 if (y, x) in cells else 0 for y in range(h) for x in range(w))
+        if ora is not None and i % 2 == 0:  # keep the longest prefix of the walk that the definition accepts: deep VALID chains
+            while order and not ora(pat()):
+                cells.discard(order.pop())
+        if mode == 2:  # sprinkle isolated cells
+            for _ in range(rng.randint(0, 3)):
+                y, x = rng.randrange(h), rng.randrange(w)
+                if _free(cells, h, w, y, x):
+                    cells.add((y, x))
+        if i % 9 == 8 and cells:  # an adjacency somewhere
+            y, x = rng.choice(sorted(cells))
+            cells.add((min(y + 1, h - 1), x))
+        out.append(tuple(1 if (y, x) in cells else 0 for y in range(h) for x in range(w)))
+    return out
+
+
+def chain_depth(h, w, p):
+    """max over diagonal-connected groups of active cells of the eccentricity-from-border (or radius) - observation only"""
+    act = {(y, x) for y in range(h) for x in range(w) if p[y * w + x]}
+    seen, best = set(), 0
+    for c in sorted(act):
+        if c in seen:
+            continue
+        comp, st = {c}, [c]
+        while st:
+            y, x = st.pop()
+            for dy, dx in ((1, 1), (1, -1), (-1, 1), (-1, -1)):
+                q = (y + dy, x + dx)
+                if q in act and q not in comp:
+                    comp.add(q)
+                    st.append(q)
+        seen |= comp
+        roots = [q for q in comp if q[0] in (0, h - 1) or q[1] in (0, w - 1)] or list(comp)
+        def ecc(r):
+            dist, fr = {r: 0}, [r]
+            while fr:
+                nx = []
+                for y, x in fr:
+                    for dy, dx in ((1, 1), (1, -1), (-1, 1), (-1, -1)):
+                        q = (y + dy, x + dx)
+                        if q in comp and q not in dist:
+                            dist[q] = dist[(y, x)] + 1
+                            nx.append(q)
+                fr = nx
+            return max(dist.values())
+        best = max(best, min(ecc(r) for r in roots))
+    return best
+
+
 def run(ctx):
     rng = ctx.rng
     msolve.install(ctx, owner="C01", brute_cap=256)
@@ -71,6 +158,10 @@ def run(ctx):
     for n in range(1, 5):
         for edges in G.all_graphs(n):
             work.append(("nsegg", n, edges))
+    big = [(4, 5), (5, 4), (5, 5), (4, 6), (6, 4), (5, 6), (6, 6), (4, 7), (7, 4), (3, 8), (2, 9), (7, 7), (6, 8)] + ([(8, 8), (5, 10), (9, 9)] if thorough else [])
+    for h, w in big:
+        for part in range(4 if thorough else 2):
+            work.append(("nseg-big", h, w, part))
     ctx.exhaustive["not_adjacent: all labelled graphs <=5 vertices, all grids <=12 cells, all patterns"] = True
     ctx.exhaustive["not_segmenting: all grids <=9 cells pointwise, both encodings"] = True
     for k, item in enumerate(work):
@@ -119,6 +210,17 @@ def run(ctx):
                                oset, desc={"fn": "not_segmenting", "grid": [h, w]}, cap=100000)
                 if h == 1 or w == 1:
                     ctx.count("nseg.single_row_or_column")
+            elif kind == "nseg-big":
+                # boards too large to enumerate: sampled patterns, rich in long diagonal chains (the shapes whose depth the rank
+                # bound of the grid encoding must cover), judged pointwise against the definition
+                _, h, w, part = item
+                n, edges = h * w, G.grid_edges(h, w)
+                ora = nseg_def(n, edges)
+                pats = big_patterns(rng, h, w, 60 if thorough else 28, ora)
+                ctx.count("nseg.big_boards")
+                ctx.count("nseg.big_valid_chain_depth3plus", sum(1 for p in pats if ora(p) and chain_depth(h, w, p) >= 3))
+                D.pointwise(ctx, "nseg", n, lambda s, act: graph.active_vertices_not_adjacent_and_not_segmenting(s, BoolArray2D(act, (h, w))),
+                            ora, pats, forms=("var",), desc={"fn": "not_segmenting", "grid": [h, w], "sampled": True}, rng=rng)
             else:
                 _, n, edges = item
                 g = D.mk_graph(n, edges)
